@@ -6,7 +6,7 @@ from astgen import AstGen
 FIELDS = ()
 LEVEL = 'proof'
 FRESH = True     # the CLI caches its configuration per process: every case runs in a freshly forked process
-RULE = 'the real cli.compile.compile / cli.new.new in a scratch HOME and cwd (fresh process each): sources succeeding / failing at any point (after output was produced, inside imported files) x prior output state (absent, stale) x project/global configs x sequences of 1-4 invocations; byte-level snapshot of the whole tree before/after, YAML compared by meaning; every sequence in the CLI model's domain (configuration given by meaning, compile / new / edit-the-project-file invocations) is also run through Model/Cli.lean (driver op cli) and compared step by step; distinct invocation sequences'
+RULE = 'the real cli.compile.compile / cli.new.new in a scratch HOME and cwd (fresh process each): sources succeeding / failing at any point (after output was produced, inside imported files) x prior output state (absent, stale) x project/global configs x sequences of 1-4 invocations; byte-level snapshot of the whole tree before/after, YAML compared by meaning; every sequence in the domain of the CLI model (configuration given by meaning, compile / new / edit-the-project-file invocations) is also run through Model/Cli.lean (driver op cli) and compared step by step; distinct invocation sequences'
 ASSUMPTIONS = ['atomicity of Path.write_text against a crash of the process mid-write is OS behaviour outside the model']
 W = dict(emit=5, assign=2, ifchain=2, repeat=1.5, whil=0.5, brk=0.3, func=1, call=1.5, ret=0, prnt=1.5, exist=0.1)
 DEFAULTS = dict(stack_limit=20, include_comments=False, flipper_commands=True, supress_command_not_exist=False, use_project_config=True)
